@@ -13,8 +13,11 @@
 (*  dataset: [sh, do, data, attr]  the file's dataset and Layout attribute *)
 (*  latest : [times, chosen, ok]   which checkpoint the loader picked      *)
 (*  const  : [ok, same]  constants file re-read with permuted key order    *)
+(*  folder : [act, c, name, nsim, from, dir, ret, extra, ok]  one call of   *)
+(*           setupSave: directory before / after, name returned per rank   *)
+(*           (SaveFolderOps: the transition of SaveFolder.tla)             *)
 (***************************************************************************)
-EXTENDS Restart, LayoutAbs, TraceBase
+EXTENDS Restart, LayoutAbs, TraceBase, SaveFolderOps
 VARIABLES l, folder
 SeqToSet(q) == {q[i] : i \in 1..Len(q)}
 Ones(n) == [i \in 1..n |-> 1]
@@ -45,6 +48,16 @@ LatestEv(e) == /\ UNCHANGED folder
                                 <<"largest-time-chosen", e.ok => e.chosen = SetMax(SeqToSet(e.times))>> >>)
 ConstEv(e) == /\ UNCHANGED folder
               /\ Verdict(e, << <<"constants-file-parsed", e.ok>>, <<"same-constants-in-any-key-order", e.ok => e.same>> >>)
+FolderEv(e) ==
+    LET auto == e.act = "auto"
+        wantDir == IF auto THEN AutoTo(e.from, e.nsim, e.c) ELSE NamedTo(e.from, e.name, e.c)
+        wantRet == IF auto THEN AutoRet(e.from, e.nsim) ELSE e.name IN
+    /\ UNCHANGED folder
+    /\ Verdict(e, << <<"setupSave-completes", e.ok>>,
+                     <<"returned-folder-holds-the-constants-of-this-call", e.ok => e.dir[wantRet] = e.c>>,
+                     <<"directory-after-the-call-is-the-models", e.ok => e.dir = wantDir>>,
+                     <<"every-rank-returns-the-models-name", e.ok => \A i \in 1..Len(e.ret) : e.ret[i] = wantRet>>,
+                     <<"nothing-else-created-and-contents-kept", e.ok => (e.extra = <<>> /\ e.kept)>> >>)
 Event(e) == CASE e.k = "newfolder" -> folder' = EmptyFolder
               [] e.k = "run" -> RunEv(e)
               [] e.k = "final" -> FinalEv(e)
@@ -52,6 +65,7 @@ Event(e) == CASE e.k = "newfolder" -> folder' = EmptyFolder
               [] e.k = "dataset" -> DatasetEv(e)
               [] e.k = "latest" -> LatestEv(e)
               [] e.k = "const" -> ConstEv(e)
+              [] e.k = "folder" -> FolderEv(e)
               [] OTHER -> Rej(e, "unknown-event-kind") /\ UNCHANGED folder
 Init == l = 1 /\ folder = EmptyFolder
 Next == l <= Len(Trace) /\ Event(Trace[l]) /\ l' = l + 1
